@@ -27,7 +27,7 @@ CHECKS = {
                 text="For a generated request and a chosen trait t, the impl items of t are compared between the full request and one where every other trait (except the documented partner) is dropped or re-configured.",
                 note="documented couplings Copy/Clone, Eq/PartialEq, Ord/PartialOrd are kept together"),
     "C16": dict(engine="P", design="5/C16",
-                technique="property-based testing: repeated expansion (8x in-process, forwards/backwards history, 6-32 fresh processes, emptied and hostile environments) and build differentials (dev vs release profile; syn with and without its full feature) over generated multi-Into, double-fault, integer-heavy and expression-heavy requests; outputs must be identical",
+                technique="property-based testing: repeated expansion (8x in-process, forwards/backwards history, 6-32 fresh processes, emptied and hostile environments) and build differentials (dev vs release profile; syn with and without its full feature), a source-position differential through real rustc, over generated multi-Into, double-fault, integer-heavy and expression-heavy requests; outputs must be identical",
                 text="Detects nondeterministic output or diagnostics probabilistically: every HashMap in the subject gets a fresh RandomState per expansion and per process; state leaking between expansions shows in the history pass; dependence on the build profile shows in the dev/release differential.",
                 note="a nondeterministic order over k items survives with probability (1/k!)^7 per case"),
     "C17": dict(engine="P+R", design="5/C17",
